@@ -52,7 +52,12 @@ class Ctx:
         if nontrivial:
             self.nontrivial.add(h64(key))
             if sample is not None and len(self.samples) < self.MAX_SAMPLES:
-                self.samples.append(sample)
+                try:
+                    big = len(json.dumps(sample, default=str)) > 20000
+                except Exception:
+                    big = False
+                if not big:   # very large cases (deep chains, big files) are summarised by their class counters instead
+                    self.samples.append(sample)
         if cls is not None:
             self.count(cls)
 
